@@ -19,7 +19,8 @@ def systems_with_flows(rng):
     import mici.systems as S
     out = {}
     metrics = {"implicit_identity": (None, np.eye(zoo.D))}
-    for kind in ("pscaled", "pdiag", "densepd", "trifacpd", "eigpd", "softabs", "pdblockdiag", "lowrank_pd", "lowrank_pd_down"):
+    for kind in ("pscaled", "pdiag", "densepd", "trifacpd", "eigpd", "softabs", "pdblockdiag", "lowrank_pd", "lowrank_pd_down",
+                 "used*densepd", "used*lowrank_pd", "used*lowrank_pd_down", "used*eigpd"):      # metrics that were used (inverse / determinant cached) and then rescaled
         m, d = matzoo.make_leaf(rng, zoo.D, kind)
         metrics[kind] = (m, d)
     for mk, (m, d) in metrics.items():
